@@ -5,11 +5,11 @@ From Flocq Require Import Core.Raux.
 From Inferno Require Import Base.Num Base.NumR C19.Encoders C19.EncodersLists C19.EncodersPoisson C19.EncodersProofs.
 Import ListNotations.
 Open Scope R_scope.
-Theorem reproducible : forall (c : config RN) (xs : list (T RN)) (shape : list nat) (coded : bool)
-    (draws draws' : list (list (T RN))) (draws0 draws0' : list (T RN)),
+Theorem reproducible : forall (c : config RN) (xs : list (T RN)) (draws draws' : list (list (T RN)))
+    (draws0 draws0' : list (T RN)),
   draws = draws' ->
   draws0 = draws0' ->
   hpe_offline RN c xs draws = hpe_offline RN c xs draws' /\
-  hpe_online RN coded shape c xs draws0 draws = hpe_online RN coded shape c xs draws0' draws'.
+  hpe_online RN c xs draws0 draws = hpe_online RN c xs draws0' draws'.
 Proof. exact (@Inferno.C19.EncodersProofs.reproducible). Qed.
 Print Assumptions reproducible.
